@@ -129,21 +129,21 @@ Proof.
 Qed.
 
 (** ---- MP_REACH_NLRI (1|2, 4) ---- *)
-Theorem reachlu_behaviour v6 ip rs :
-  ip < 2 ^ abits v6 -> rs <> [] -> Forall (wf_lroute v6) rs ->
+Theorem reachlu_behaviour_x v6 nh6 ip rs :
+  ip < 2 ^ abits nh6 -> rs <> [] -> Forall (wf_lroute v6) rs ->
   forall nlri, construct_lu v6 false rs = Ok nlri -> len nlri <= 65000 ->
-  exists v, reachlu_construct v6 ip rs =
+  exists v, reachlu_construct_x v6 nh6 ip rs =
               Ok (Some ([c_ATTR_MpReachNLRI_FLAG; c_ATTR_MpReachNLRI_ID] ++ be 2 (len v) ++ v)) /\
-            reachlu_parse v6 v = Ok (Some (vaddr v6 ip), map (expect_plroute v6) rs).
+            reachlu_parse v6 v = Ok (Some (vaddr nh6 ip), map (expect_plroute v6) rs).
 Proof.
   intros Hip Hne Hw nlri Hc Hlen.
   destruct (lu_nlri_roundtrip v6 rs Hw) as (b & Hc' & Hnn & Hp).
   rewrite Hc in Hc'. injection Hc' as <-.
-  set (nh := be (abytes v6) ip).
-  assert (Hnhl : length nh = abytes v6) by apply length_be.
+  set (nh := be (abytes nh6) ip).
+  assert (Hnhl : length nh = abytes nh6) by apply length_be.
   set (v := be 2 (vpn_afi v6) ++ [SAFI_MPLS_LABEL] ++ [len nh] ++ nh ++ [0] ++ nlri).
   exists v. split.
-  - unfold reachlu_construct. rewrite Hc. cbn [bind].
+  - unfold reachlu_construct_x. rewrite Hc. cbn [bind].
     assert (Hnz : nlri <> []) by (apply Hnn, Hne).
     assert (G : forall A (f g : A), match nlri with [] => f | _ :: _ => g end = g)
       by (intros; destruct nlri; [congruence | reflexivity]).
@@ -151,13 +151,13 @@ Proof.
     assert (G2 : forall x, x = nh ->
       bind (reach_attr (vpn_afi v6) SAFI_MPLS_LABEL (len x) x nlri) (fun b => Ok (Some b)) =
       Ok (Some ([c_ATTR_MpReachNLRI_FLAG; c_ATTR_MpReachNLRI_ID] ++ be 2 (len v) ++ v)));
-    [|apply G2; unfold nh; destruct v6; reflexivity].
+    [|apply G2; unfold nh; destruct nh6; reflexivity].
     intros x ->. unfold reach_attr, reach_value.
-    destruct (255 <? len nh) eqn:E2; [unfold len in E2; rewrite Hnhl in E2; destruct v6; discriminate|].
+    destruct (255 <? len nh) eqn:E2; [unfold len in E2; rewrite Hnhl in E2; destruct nh6; discriminate|].
     cbn [bind]. fold v. unfold attr.
     destruct (65535 <? len v) eqn:E3; [|reflexivity].
     exfalso. apply N.ltb_lt in E3. unfold v in E3. rewrite !len_app, len_be in E3.
-    unfold len in *. rewrite Hnhl in E3. cbn [length] in E3. destruct v6; cbn [abytes] in E3; lia.
+    unfold len in *. rewrite Hnhl in E3. cbn [length] in E3. destruct nh6; cbn [abytes] in E3; lia.
   - unfold reachlu_parse, v.
     assert (Hbe : be 2 (vpn_afi v6) = [0; vpn_afi v6]) by (destruct v6; reflexivity).
     rewrite Hbe. cbn [app reach_split bind].
@@ -169,20 +169,45 @@ Proof.
     { replace (nh ++ 0 :: nlri) with ((nh ++ [0]) ++ nlri) by (rewrite <- app_assoc; reflexivity).
       unfold drop. apply skipn_app_len. rewrite app_length. unfold len. cbn [length]. lia. }
     rewrite Ht, Hd.
-    assert (HA : addr_of_bytes nh = Ok (vaddr v6 ip)).
-    { unfold nh, addr_of_bytes. rewrite int_of_hex_nonempty by (rewrite length_be; destruct v6; cbn; lia).
-      cbn [bind]. rewrite unbe_be by (destruct v6; exact Hip).
-      destruct v6; cbn [vaddr abits] in *.
+    assert (HA : addr_of_bytes nh = Ok (vaddr nh6 ip)).
+    { unfold nh, addr_of_bytes. rewrite int_of_hex_nonempty by (rewrite length_be; destruct nh6; cbn; lia).
+      cbn [bind]. rewrite unbe_be by (destruct nh6; exact Hip).
+      destruct nh6; cbn [vaddr abits] in *.
       - apply of_int_render; exact Hip.
       - unfold of_int. destruct (ip <? 2 ^ 32) eqn:E; [reflexivity | apply N.ltb_ge in E; lia]. }
     assert (G : match nh with [] => Ok None | _ :: _ => bind (addr_of_bytes nh) (fun a => Ok (Some a)) end
-                = Ok (Some (vaddr v6 ip))).
-    { rewrite HA. destruct nh eqn:En; [cbn in Hnhl; destruct v6; discriminate | reflexivity]. }
+                = Ok (Some (vaddr nh6 ip))).
+    { rewrite HA. destruct nh eqn:En; [cbn in Hnhl; destruct nh6; discriminate | reflexivity]. }
     rewrite G. cbn [bind]. unfold parse_lu_all. rewrite Hp by lia. reflexivity.
 Qed.
 
+Theorem reachlu_behaviour v6 ip rs :
+  ip < 2 ^ abits v6 -> rs <> [] -> Forall (wf_lroute v6) rs ->
+  forall nlri, construct_lu v6 false rs = Ok nlri -> len nlri <= 65000 ->
+  exists v, reachlu_construct v6 ip rs =
+              Ok (Some ([c_ATTR_MpReachNLRI_FLAG; c_ATTR_MpReachNLRI_ID] ++ be 2 (len v) ++ v)) /\
+            reachlu_parse v6 v = Ok (Some (vaddr v6 ip), map (expect_plroute v6) rs).
+Proof. exact (reachlu_behaviour_x v6 v6 ip rs). Qed.
+
 Lemma construct_lu_total v6 rs : Forall (wf_lroute v6) rs -> exists nlri, construct_lu v6 false rs = Ok nlri.
 Proof. intros Hw. destruct (lu_nlri_roundtrip v6 rs Hw) as (b & Hc & _). eauto. Qed.
+
+Theorem reachlu_roundtrip_x : forall v6 nh6 ip rs,
+  ip < 2 ^ abits nh6 -> (nh6 = true -> 2 ^ 32 <= ip) -> rs <> [] -> Forall (wf_lroute v6) rs ->
+  Forall (fun r => v6 = true -> 2 ^ 32 <= l_addr r) rs ->
+  forall nlri, construct_lu v6 false rs = Ok nlri -> len nlri <= 65000 ->
+  exists v, reachlu_construct_x v6 nh6 ip rs =
+              Ok (Some ([c_ATTR_MpReachNLRI_FLAG; c_ATTR_MpReachNLRI_ID] ++ be 2 (len v) ++ v)) /\
+            reachlu_parse v6 v =
+              Ok (Some (if nh6 then V6 ip else V4 ip),
+                  map (fun r => (l_labels r, (if v6 then V6 (l_addr r) else V4 (l_addr r)), l_len r)) rs).
+Proof.
+  intros v6 nh6 ip rs Hip Hhi Hne Hw Hh nlri Hc Hlen.
+  destruct (reachlu_behaviour_x v6 nh6 ip rs Hip Hne Hw nlri Hc Hlen) as (v & H1 & H2).
+  exists v. split; [exact H1|]. rewrite H2. rewrite vaddr_high by exact Hhi.
+  do 2 f_equal. apply map_ext_in. intros r Hr. unfold expect_plroute.
+  rewrite vaddr_high; [reflexivity|]. rewrite Forall_forall in Hh. exact (Hh r Hr).
+Qed.
 
 Theorem reachlu_roundtrip : forall v6 ip rs,
   ip < 2 ^ abits v6 -> (v6 = true -> 2 ^ 32 <= ip) -> rs <> [] -> Forall (wf_lroute v6) rs ->
@@ -193,13 +218,7 @@ Theorem reachlu_roundtrip : forall v6 ip rs,
             reachlu_parse v6 v =
               Ok (Some (if v6 then V6 ip else V4 ip),
                   map (fun r => (l_labels r, (if v6 then V6 (l_addr r) else V4 (l_addr r)), l_len r)) rs).
-Proof.
-  intros v6 ip rs Hip Hhi Hne Hw Hh nlri Hc Hlen.
-  destruct (reachlu_behaviour v6 ip rs Hip Hne Hw nlri Hc Hlen) as (v & H1 & H2).
-  exists v. split; [exact H1|]. rewrite H2. rewrite vaddr_high by exact Hhi.
-  do 2 f_equal. apply map_ext_in. intros r Hr. unfold expect_plroute.
-  rewrite vaddr_high; [reflexivity|]. rewrite Forall_forall in Hh. exact (Hh r Hr).
-Qed.
+Proof. intros v6. exact (reachlu_roundtrip_x v6 v6). Qed.
 
 (** defects, on concrete inputs *)
 Lemma refuted_lu4_label_zero :
